@@ -234,3 +234,14 @@ Proof. unfold mse_m, mse_with. destruct (gather _ _ _ _ _ _) as [R|]; simpl; int
 (* the specification kernel used by the check's property predicate agrees with the regenerated kernel everywhere *)
 Lemma sqerr_spec_x_ok f o : sqerr_spec_x f o =x= gen_c13_sqerr f o.
 Proof. destruct f as [|f|], o as [|o|]; try reflexivity. Qed.
+
+(* complementarity at the level of the whole per-case array: every cell agrees *)
+Lemma brier_pointwise_complementary fcst obs ens tdim ts op fair e :
+  lget (brier_ens_pointwise brier_ens_case fcst obs ens tdim ts (compl op) fair) e =x=
+  lget (brier_ens_pointwise brier_ens_case fcst obs ens tdim ts op fair) e.
+Proof. simpl. apply brier_complementary. Qed.
+(* ... and the whole per-case array of the model agrees cell by cell with the specification *)
+Lemma brier_pointwise_spec fcst obs ens tdim ts op fair e :
+  lget (brier_ens_pointwise brier_ens_case fcst obs ens tdim ts op fair) e =x=
+  lget (brier_ens_pointwise brier_ens_spec fcst obs ens tdim ts op fair) e.
+Proof. simpl. apply brier_ens_case_spec. Qed.
